@@ -293,6 +293,20 @@ def serial_writers(P, R):
                 rhs = s.ev.get('rhs')
                 ok = f in announce and rhs is not None and rhs.get('k') == 'un' and rhs['op'] == '++' and not rhs.get('postfix') and is_var(rhs['e'], 'iauth_serial')
                 R.ob('C04.WMC.2', ok, s, 'a request\'s serial is assigned once, from the pre-incremented counter', key='request-serial')
+    # every announcement starts a new instance: apart from a short line, no path through the announce handler skips
+    # the serial assignment (keeping the old record would hand its pending answers to whoever reuses the id)
+    for h in announce:
+        ser = [t for t in h.stores() if t.ev['k'] == 'store' and is_field(t.ev['lhs'], 'serial', core.REQ_REC)]
+        if not ser:
+            continue
+        short = []
+        for bid in h.reachable_blocks():
+            for e in h.out[bid]:
+                r = rules.edge_rel(e)
+                if r and is_var(r[0]) and r[0]['name'] in h.params and r[0].get('t') in ('int', 'size_t', 'unsigned int') and r[1] in ('<', '<=') and isinstance(const_of(r[2]), int):
+                    short.append(e)
+        live = h.reach([h.entry], cut_edges=short, cut_blocks=[t.bid for t in ser])
+        R.ob('C04.WMC.2', h.exit not in live, ser[0], 'every announcement with enough parameters is given a fresh serial (no path through %s avoids the assignment)' % h.name, key='announce-always-new')
     # the serial only tells instances apart while it does not repeat: the request's field is as wide as the counter
     from ..numeric import type_range
     fld = P.record_field(core.REQ_REC, 'serial') or {}
